@@ -52,6 +52,29 @@ impl RngCore for ScriptRng {
     }
 }
 
+thread_local! {
+    static TLS_WORD: std::cell::Cell<u64> = const { std::cell::Cell::new(0) };
+}
+
+/// The same scripted word, but reachable through `Default::default()`: what the library's
+/// `DefaultRng<R>` wrapper (the default RNG path, normally `DefaultRng<ThreadRng>`) needs.
+#[derive(Default)]
+pub struct TlsRng;
+impl RngCore for TlsRng {
+    fn next_u32(&mut self) -> u32 {
+        (TLS_WORD.with(|w| w.get()) >> 32) as u32
+    }
+    fn next_u64(&mut self) -> u64 {
+        TLS_WORD.with(|w| w.get())
+    }
+    fn fill_bytes(&mut self, dst: &mut [u8]) {
+        let v = self.next_u64();
+        for (i, b) in dst.iter_mut().enumerate() {
+            *b = (v >> ((i % 8) * 8)) as u8;
+        }
+    }
+}
+
 /// what `rng.random::<f32>()` yields for the scripted word (asked from rand itself)
 fn f32_of(word: u64) -> f32 {
     use rand::Rng as _;
@@ -136,12 +159,19 @@ fn counts_in(out: &[u8]) -> Vec<u64> {
 
 pub struct FixedFraction;
 
-fn emf_weight(rate: f32, word: u64) -> Result<Vec<u64>, String> {
-    let rng = ScriptRng::new();
-    rng.word.store(word, Ordering::SeqCst);
-    let mut f = Emf::all_validations("Ns".into(), vec![vec![]]).with_sampling_and_rng(rng);
+fn emf_weight(rate: f32, word: u64, via_default: bool) -> Result<Vec<u64>, String> {
     let mut out = vec![];
-    f.format_with_sample_rate(&SEntry { id: 5, group: "g".into() }, &mut out, rate).map_err(|e| format!("{e}"))?;
+    if via_default {
+        // through the library's DefaultRng wrapper (a pass-through to R::default())
+        TLS_WORD.with(|w| w.set(word));
+        let mut f = Emf::all_validations("Ns".into(), vec![vec![]]).with_sampling_and_rng(metrique_writer::sample::DefaultRng::<TlsRng>::default());
+        f.format_with_sample_rate(&SEntry { id: 5, group: "g".into() }, &mut out, rate).map_err(|e| format!("{e}"))?;
+    } else {
+        let rng = ScriptRng::new();
+        rng.word.store(word, Ordering::SeqCst);
+        let mut f = Emf::all_validations("Ns".into(), vec![vec![]]).with_sampling_and_rng(rng);
+        f.format_with_sample_rate(&SEntry { id: 5, group: "g".into() }, &mut out, rate).map_err(|e| format!("{e}"))?;
+    }
     Ok(counts_in(&out))
 }
 
@@ -170,12 +200,16 @@ impl Scenario for FixedFraction {
             };
             rates.push(bits);
         }
-        json!({"sched": {"seed": rng.next_u64() >> 1}, "rates": rates, "draw_words": (0..4).map(|_| rng.next_u64()).collect::<Vec<_>>()})
+        json!({"sched": {"seed": rng.next_u64() >> 1}, "rates": rates, "draw_words": (0..4).map(|_| rng.next_u64()).collect::<Vec<_>>(), "via_default_rng": rng.chance(0.4)})
     }
     fn run(&self, plan: &Value) -> Report {
         let mut r = Report::default();
         let mut sig = hash_value(plan);
         let mut cases = 0u64;
+        let via_default = jb(plan, "via_default_rng", false);
+        if via_default {
+            r.probe("through_default_rng_wrapper", 1);
+        }
         'rates: for rb in ja(plan, "rates") {
             let rate = f32::from_bits(rb.as_u64().unwrap_or(0) as u32);
             if !(rate.is_finite() && rate > 0.0 && rate <= 1.0) {
@@ -190,8 +224,14 @@ impl Scenario for FixedFraction {
                 let rng = ScriptRng::new();
                 rng.word.store(w, Ordering::SeqCst);
                 let rec = RecFormat::default();
-                let mut s = FixedFractionSample::with_rng(rec.clone(), rate, rng.clone());
-                let res = s.format(&SEntry { id: 9, group: "g".into() }, &mut io::sink());
+                let res = if via_default {
+                    TLS_WORD.with(|c| c.set(w));
+                    let mut s = FixedFractionSample::with_rng(rec.clone(), rate, metrique_writer::sample::DefaultRng::<TlsRng>::default());
+                    s.format(&SEntry { id: 9, group: "g".into() }, &mut io::sink())
+                } else {
+                    let mut s = FixedFractionSample::with_rng(rec.clone(), rate, rng.clone());
+                    s.format(&SEntry { id: 9, group: "g".into() }, &mut io::sink())
+                };
                 cases += 1;
                 sig = mix(sig, w ^ rate.to_bits() as u64);
                 let log = rec.log.lock().unwrap().clone();
@@ -225,14 +265,14 @@ impl Scenario for FixedFraction {
             let inv = 1.0f64 / rate as f64;
             let lo_word = 0u64;
             let hi_word = u64::MAX;
-            let n_lo = match emf_weight(rate, lo_word) {
+            let n_lo = match emf_weight(rate, lo_word, via_default) {
                 Ok(c) => c,
                 Err(e) => {
                     r.violation = Some(Violation::new("weight_error", format!("rate {rate:e}: {e}")));
                     break 'rates;
                 }
             };
-            let n_hi = emf_weight(rate, hi_word).unwrap_or_default();
+            let n_hi = emf_weight(rate, hi_word, via_default).unwrap_or_default();
             cases += 2;
             for (which, counts) in [("smallest draw", &n_lo), ("largest draw", &n_hi)] {
                 if counts.is_empty() {
@@ -272,7 +312,7 @@ impl Scenario for FixedFraction {
                 let (mut a, mut b) = (0u64, u64::MAX);
                 for _ in 0..64 {
                     let m = a + (b - a) / 2;
-                    let c = emf_weight(rate, m).unwrap_or_default();
+                    let c = emf_weight(rate, m, via_default).unwrap_or_default();
                     cases += 1;
                     if c.first().copied() == Some(n_lo[0]) { a = m } else { b = m }
                     if b - a <= 1 {
@@ -307,7 +347,7 @@ impl Scenario for FixedFraction {
         r
     }
     fn probes(&self) -> Vec<&'static str> {
-        vec!["emitted", "dropped", "weight_saturated", "reciprocal_above_2_53", "unbiasedness_bisected", "decisions_checked"]
+        vec!["emitted", "dropped", "weight_saturated", "reciprocal_above_2_53", "unbiasedness_bisected", "decisions_checked", "through_default_rng_wrapper"]
     }
     fn components(&self) -> Value {
         json!({"real": ["FixedFractionSample", "SampledEmf::format_with_sample_rate / rate_to_n / rate_to_n_alpha", "Emf"], "simulated_seams": ["RngCore (scripted: draw placed below / on / above the rate; bisected for the weight threshold)"], "harness": ["recording SampledFormat", "Counts parser"], "stub": []})
